@@ -1,6 +1,32 @@
 """Property -> packs, bounded stand-ins, native replay harness, notes (read by pyvc.check)."""
 
 REGISTRY = {
+    "C05": dict(
+        packs=["store", "mem"], level="proof",
+        replay=dict(script="replay/mem.py", args=["C05"], timeout=600),
+        bounded=[dict(name="crash-state-recovery", script="replay/mem.py", args=["C05"],
+                      bound="fresh-process call from every crash state of one entry: missing/torn metadata, missing/torn output, empty entry dir, leftover temporary, "
+                            "removed function dir, func_code.py truncated at EVERY length; with and without expires_after")],
+        trusted=["POSIX model of contracts/store.py: atomic rename, a crash leaves a prefix of the issued effects, no reordering by the disk (fsync out of scope)",
+                 "abstract store contracts of contracts/mem.py (they are the summaries of the store pack's contracts; the link is by inspection, not mechanised)"],
+        assumptions=["directory components (function id, argument hash) are never named output.pkl / metadata.json", "OS errors other than EEXIST/ENOENT (permissions, full disk) are out of scope",
+                     "a PicklingError inside dump leaves a closed but unloadable output.pkl under the final name (observed, deliberate in joblib until 1.5); the load then fails and the value is recomputed (C14 path)"],
+        undecided_clauses=["reduce_size / Memory.clear crash points: eviction only removes (rmtree prefix states satisfy CI); K3 is the one crash state that breaks the store invariant"],
+    ),
+    "C11": dict(
+        packs=["store", "mem"], level="proof",
+        replay=dict(script="replay/c11.py", args=["{seed}", "3", "3", "200"], timeout=900),
+        bounded=[dict(name="threads-and-processes-stress", script="replay/c11.py", args=["{seed}", "3", "3", "200"],
+                      bound="3 threads + 3 processes x 200 operations on one cache directory (calls with 7 argument values, 8% reduce_size, 3% clear); "
+                            "all values checked, every output.pkl left behind loaded")],
+        trusted=["interference model: between two file-system primitives of one user the whole file system may change arbitrarily except that this user's own temporaries "
+                 "(its thread id and pid) are untouched and every visible result file is complete (the guarantee proved for every writer in this pack)",
+                 "an open file descriptor keeps reading the old file after replace/unlink (POSIX)"],
+        assumptions=["atomic steps are the file-system primitives; rmtree and in-place rewriting are sequences of steps", "mmap_mode is None",
+                     "get_items / enforce_store_limits tolerate concurrent removal through their except OSError clauses (exercised by the bounded stress only)"],
+        undecided_clauses=["no schedule is enumerated: the adversary is the rely relation (any number of other users)",
+                           "two racing clearers may see FileNotFoundError from rm_subdirs (outside the property: it is about calls of cached functions)"],
+    ),
     "C02": dict(
         packs=["mem"], level="proof",
         replay=dict(script="replay/mem.py", args=["C02"], timeout=600),
@@ -117,6 +143,23 @@ NOT_APPLICABLE = {
 }
 
 MANIFEST_TEXT = {
+    "C05": dict(
+        text="Crash invariant 'a result file (output.pkl, metadata.json) is never visible under its final name unless complete' asserted and discharged after EVERY "
+             "file-system effect (mkdir, open-for-writing, write, close, atomic replace, any prefix of rmtree) of dump_item, store_metadata, store_cached_func_code, "
+             "clear_item, clear_path, mkdirp, over an algebraic path model with injective temporaries; the only write that reaches a final name is one atomic replace of a "
+             "closed temporary. Recovery: _cached_call returns the correct value and raises nothing from every store state satisfying the store invariant "
+             "(absent or torn code file, missing metadata, failing loads), incl. expires_after on missing metadata.",
+        note="Assumed: POSIX model, abstract store summaries. Known finding K3 (crash inside clear removing func_code.py first). One fix commit (KeyError in expires_after, "
+             "ValueError in extract_first_line on torn files).",
+    ),
+    "C11": dict(
+        text="Rely/guarantee at file-system-primitive granularity: every writer contract is re-proved with the whole file system havocked before each primitive (other users "
+             "may create, replace, remove anything but this user's own temporaries, and keep result files complete): dump_item, store_metadata, get_metadata, contains_item, "
+             "clear_item, clear_path, mkdirp raise nothing and preserve the guarantee; temporaries embed (thread id, pid) injectively, so two writers of one entry never share a "
+             "temporary and the final name only changes by atomic replacement of a complete file.",
+        note="Known finding K4 (FileNotFoundError from store_cached_func_code when the directory is removed between mkdir and open). No schedules are enumerated; thread/process "
+             "stress is a bounded native aid.",
+    ),
     "C02": dict(
         text="Contracts on the real MemorizedFunc methods against an abstract store with store invariant SI and table invariant TI: _cached_call / __call__ "
              "return Eval(current source, KEY) on every path (hit, miss, failed load, invalidated entry, changed code), call_and_shelve returns a reference "
